@@ -83,6 +83,23 @@ def run(tier, seed):
                       replay={"kind": "case", "case": {"op": a["op"], "description": a["desc"], "shapes": a["shapes"], "seeds": [s0, s1]}}, found_input=True)
     for r in graph_nonrepeat[:3]:
         chk.violation("C16.B.graph_text_repeatable", f"two graph=True requests for einx.{r['op']}({r['desc']!r}) in one process returned different text", replay={"kind": "case", "case": r}, found_input=True)
+    # repetition / order independence within one process: the same labelled calls in four orders (forward, reversed, each twice, interleaved + forward)
+    hist = {}
+    for mode in ("fwd", "rev", "twice", "interleaved"):
+        env = dict(os.environ, PYTHONHASHSEED="0", PYTHONPATH=(os.environ.get("EINX_VERIF_REPO", "") + os.pathsep + ROOT).lstrip(os.pathsep))
+        r = subprocess.run([sys.executable, "-m", "vf.props._digest", "0", "0", mode], capture_output=True, text=True, env=env, cwd=ROOT, timeout=1200)
+        rows = [json.loads(l) for l in r.stdout.splitlines() if l.startswith("{")]
+        if r.returncode or not rows:
+            chk.checker_errors.append(f"history digest child ({mode}) failed: {r.stderr[-300:]}")
+        for row in rows:
+            hist.setdefault(row["history_label"], {}).setdefault(json.dumps(row["out"]), []).append(mode)
+    hfails = []
+    for label, outs in hist.items():
+        if len(outs) > 1:
+            hfails.append(label)
+            chk.violation("C16.B.order_independent", f"the call `{label}` has different outcomes depending on the order / repetition of the calls in one process: { {k: sorted(set(v)) for k, v in outs.items()} }",
+                          replay={"kind": "case", "case": {"label": label, "outcomes": {k: sorted(set(v)) for k, v in outs.items()}}}, found_input=True)
+    chk.add_bounded("labelled calls with constants / tensor factories evaluated in four orders and repetitions within one process", "10 calls x 4 orders", sum(len(m) for o in hist.values() for m in o.values()), len(hist), failures=hfails)
     chk.add_bounded("digest of results / exception classes / alpha-normalised code across PYTHONHASHSEED", f"{len(seeds)} seeds x {total} calls", total * len(seeds), total, failures=diffs, samples=(base[1][:2] if base else []))
     chk.assumptions += [f"set-iteration site {k}: {v}" for k, v in ASSUMED_SITES.items()] + ["sympy's result for a uniquely solvable system does not depend on the order of equations (trusted; sampled by the digest)", "equality across processes beyond the sampled seeds is not decided"]
     chk.explanation = "determinism obligations on every set-iteration site (syntactic rule with discharge patterns; sites without a pattern need a P proof or are listed as assumptions), plus a bounded digest across hash seeds"
